@@ -212,6 +212,10 @@ def interp_concrete_case(contract_module, cls_name, shape_idx, seed):
             return sym.int(name, lo, hi)
         if kind == "bool":
             return sym.bool(name)
+        if kind == "bv":
+            return sym.bv(name, int(hi).bit_length())
+        if kind.startswith("sbv:"):
+            return sym.sbv(name, int(kind[4:]), lo, hi)
         return sym.int(name, lo, hi)
 
     return run_concrete(contract_module, cls_name, shape_idx, concrete)
